@@ -247,3 +247,19 @@ func envSeed() uint64 {
 	}
 	return uint64(v)
 }
+
+// keptPayload: the byte slice an earlier marshaling call returned belongs to its caller. The slice itself (not a
+// copy) is kept per site and must still read the same after the next call of that site.
+var keptPayloads = map[string][]byte{}
+var keptDigests = map[string]string{}
+
+func keptPayloadCheck(c *Ctx, site string, out []byte) bool {
+	ok := true
+	if prev, has := keptPayloads[site]; has && prev != nil && digest(prev) != keptDigests[site] {
+		c.Violate("earlier-payload-changed/"+site, "the bytes returned by an earlier %s call changed when the next one ran; they now read %s", site, clip(string(prev), 300))
+		ok = false
+	}
+	keptPayloads[site], keptDigests[site] = out, digest(out)
+	c.Count("payloads_kept_across_the_next_call")
+	return ok
+}
